@@ -458,6 +458,17 @@ for _g in PLANS['C13']['groups']:
     _g['owners'] = c13_owners
 
 
+# the binary (mutex + condition variable) semaphore flavour: real pthread primitives, Mode A only
+BINSEM = dict(params=dict(binsem=1))
+PLANS['C01']['groups'].append(G('mu_mix', 'c-binsem-plain', 'A', 2, 600, thorough=30000, owners=mu_mix_owners, **BINSEM))
+PLANS['C02']['groups'].append(G('mu_mix', 'c-binsem-plain', 'A', 2, 600, thorough=30000, owners=mu_mix_owners, **BINSEM))
+PLANS['C02']['groups'].append(G('cond_rounds', 'c-binsem-plain', 'A', 1, 600, thorough=30000, owners=mu_mix_owners, **BINSEM))
+for _g in PLANS['C04']['groups']:
+    if _g['variant'] == 'c-binsem-plain':
+        _g.pop('tier', None)
+        _g['rounds'] = 400
+
+
 def expand(prop, tier, scale=1.0):
     spec = PLANS[prop]
     out = []
